@@ -429,7 +429,7 @@ class Check(Property):
         P = regs.pools()
         proj = P.proj
         v = []
-        r = regs.fresh("float")
+        r = regs.fresh("fraction")      # exact exponents: a rule such as watt:second gives thirds
         lines = [f"@system {c['name']} using international"] + [f"    {n}:{o}" if o else f"    {n}" for n, o in c["rules"]] + ["@end"]
         tag0 = f"C14 system {c['name']} with rules {c['rules']}"
         logging.disable(logging.CRITICAL)
